@@ -53,6 +53,8 @@ def main():
         if out.strip():
             print("/repo is not clean; refusing to apply"); sys.exit(2)
         rc, out = sh("git -C %s apply %s" % (REPO, patch))
+        evbak = tempfile.mkdtemp(prefix="evbak.")
+        sh("cp -a %s/evidence/. %s/" % (VERIF, evbak))   # evidence of the unchanged tree must not be overwritten by mutant runs
         try:
             for p in props:
                 t0 = time.time()
@@ -62,6 +64,8 @@ def main():
                 print(p, "exit", rc, "|", " || ".join(lines[:6])[:900])
         finally:
             sh("git -C %s checkout -- ." % REPO)
+            sh("rm -rf %s/evidence/replay.mutant && mkdir -p %s/evidence/replay && cp -a %s/evidence/replay %s/evidence/replay.mutant" % (VERIF, VERIF, VERIF, VERIF))
+            sh("find %s/evidence -maxdepth 1 -name 'C*.json' -delete; cp -a %s/. %s/evidence/; rm -rf %s" % (VERIF, evbak, VERIF, evbak))
     meta["check_results"] = results
     meta["detected"] = any(r["exit"] == 1 for r in results.values())
     d = os.path.join(VERIF, "seeded", sid)
